@@ -1343,6 +1343,13 @@ def compile_match_expression(compiler, expr, root, subject, clauses):
     return ret + returnable
 
 
+def is_dotted_name(node):
+    "Is `node` a name or a chain of attribute lookups on one, like `a.b.c`?"
+    while isinstance(node, ast.Attribute):
+        node = node.value
+    return isinstance(node, ast.Name)
+
+
 def compile_pattern(compiler, pattern):
     value, assignment = pattern
     if assignment is not None:
@@ -1408,13 +1415,16 @@ def compile_pattern(compiler, pattern):
     elif isinstance(value, Expression):
         head, args, kwargs = value
         keywords, values = zip(*kwargs) if kwargs else ([], [])
+        cls = compiler.compile(
+          # `head` could be a symbol or a dotted form.
+            (head[:1] + head[1]).replace(head)
+            if type(head) is Expression
+            else head).expr
+        if not is_dotted_name(cls):
+            compiler._syntax_error(head, "a class pattern needs a name or dotted name")
         return asty.MatchClass(
             value,
-            cls=compiler.compile(
-              # `head` could be a symbol or a dotted form.
-                (head[:1] + head[1]).replace(head)
-                if type(head) is Expression
-                else head).expr,
+            cls=cls,
             patterns=[compile_pattern(compiler, v) for v in args],
             kwd_attrs=[kwd.name for kwd in keywords],
             kwd_patterns=[compile_pattern(compiler, value) for value in values],
